@@ -231,6 +231,14 @@ InitLoop ==
 
 Reject(s, why) == [s EXCEPT !.pc = "rejected", !.bad = why]
 
+\* Attempts of one build that may end in a transient failure when the keys hold
+\* a duplicate that is being looked for.  A correct build fails transiently with
+\* a probability well below 1/2 per attempt (unsolvable system, a shard more
+\* than 1% above the average) and meets a duplicate at most four times, so
+\* twenty such attempts do not happen; a build that keeps retrying because the
+\* duplicate itself causes the transient failure exceeds it at once.
+TransientCap == 20
+
 \* deterministic acceptor: the state after hook event e = <<kind, value>>
 Step(s, c, e) ==
     LET k == e[1]
@@ -291,6 +299,10 @@ Step(s, c, e) ==
                   ELSE Reject(s, "fail-dup-early")
              [] k = "rewind" ->
                   IF s.cls = "dup_sig" /\ s.dupCount >= 3 THEN Reject(s, "dup-bound")
+                  \* "an error after a bounded number of attempts": with duplicates and
+                  \* checking, attempts that end without finding one (unsolvable, largest
+                  \* shard too big) must stay exceptions, not become the rule
+                  ELSE IF c.dups /\ c.checkDups /\ s.transient > TransientCap THEN Reject(s, "retry-bound")
                   ELSE [s EXCEPT !.pc = "rew",
                                  !.dupCount = IF s.cls = "dup_sig" THEN @ + 1 ELSE @]
              [] OTHER -> Reject(s, "rewind-expected")
